@@ -199,6 +199,12 @@ func (u *ut0311) SendUDP(addr *net.UDPAddr, request []byte) ([]byte, error) {
 		Control: func(network, address string, connection syscall.RawConn) (err error) {
 			var operr error
 
+			// NTS: SO_REUSEADDR on a UDP socket bound to port 0 allows the kernel to assign the same ephemeral
+			//      port to two concurrent requests, which then receive each other's replies
+			if bind.Port == 0 {
+				return nil
+			}
+
 			f := func(fd uintptr) {
 				operr = setSocketOptions(fd)
 			}
